@@ -17,6 +17,7 @@ so a rendering that is not moved as a whole by moving the page area disagrees wi
 coordinates, e.g. the page origin returned for zero-height floats before /repo 50ab141).  Core Lean only.
 -/
 import WpModel.Props.C05Refine
+import WpModel.Props.C05Shrink
 namespace Wp.C05Meta
 open Wp Wp.BoxModel Wp.BlockTree Wp.C05
 
@@ -281,6 +282,30 @@ example : (match layoutNode (.box 200 .rtl) none 0 .rtl 16 (.mk plainStyle [.mk 
       layoutNode (.box 200 .rtl) none 0 .rtl 16 (.mk plainStyle [C05Refine.exNode]) with
     | .ok (p :: q :: rest), .ok (p' :: rest') => decide (p = p' ∧ q = wrapperGeo 0 200 ∧ rest = rest' ∧ rest.length = 3)
     | _, _ => false) = true := by
+  decide +kernel
+
+/-! ### documents: the used width is the CSS formula -/
+
+open Wp.C05Shrink
+
+/-- (b)(c) **Documents: the used width of every block box is the CSS formula** — for every box the block-tree model
+lays out (`resolve_percentages`, then the decorated `block_level_width`): with `t` the tentative width of CSS 2.1
+§10.3.3 for the used margins, paddings and borders, the used width is `cssClamp t min-width max-width` with the
+*used* (percentages resolved, box-sizing subtracted) constraints. -/
+theorem layoutBox_width_css (cb : CB) (cbH : Len) (x fs : Rat) (s : NStyle) (g : Geo) (u : Used)
+    (h : layoutBox cb cbH x fs s = .ok (g, u)) :
+    ∃ t, (blwCore cb.width cb.direction (aboxOfUsed u x)).w = some t ∧
+      g.w = cssClamp t u.minWidth u.maxWidth := by
+  obtain ⟨r, hr, _, _, hw, _⟩ := C05Refine.layoutBox_unfold cb cbH x fs s g u h
+  obtain ⟨t, ht, hrw⟩ := blw_minmax_width_css cb.width cb.direction (aboxOfUsed u x) r hr
+  refine ⟨t, ht, ?_⟩
+  rw [hw] at hrw
+  exact Option.some.inj hrw
+
+/-- Non-vacuity: `width: 200px; max-width: 50px` in a 100px containing block is 50px wide. -/
+example : (match layoutBox (.box 100 .rtl) none 0 16 { C05Refine.exStyle with width := .px 200, maxW := .px 50 } with
+    | .ok (g, u) => decide (g.w = cssClamp 200 u.minWidth u.maxWidth ∧ g.w = 50)
+    | .error _ => false) = true := by
   decide +kernel
 
 end Wp.C05Meta
